@@ -201,12 +201,20 @@ def run(ctx):
                 if st5 != "ok" or got_br != exp_br:
                     ctx.violation("block_range", "block_range disagrees with the token picture of the two positions",
                                   dict(replay, got=got_br if st5 == "ok" else str(got_br), expected=exp_br))
+                if st5 == "ok":
+                    reqs.append({"op": "blockRange", "s": info.lean_id, "doc": dj, "from": f, "to": t})
+                    metas.append(("blockRange", replay, got_br))
                 # separators and leaf text (string and callable forms)
                 for sep, lt_impl, lt_ref in (("\n", "", ""), ("|", "*", "*"), ("\n\n", lambda n: "" if n.type.name.startswith("h") else "[" + n.type.name + "]",
                                                                               lambda ty: "" if ty.startswith("h") else "[" + ty + "]"), ("", "#", "#")):
                     st4, txt2 = outcome(lambda: d.text_between(f, t, sep, lt_impl))
                     exp2 = ref_text_between(schema, d.to_json().get("content"), f, t, sep, lt_ref)
                     ctx.count("text_between_sep_calls")
+                    if st4 == "ok" and isinstance(lt_impl, str):
+                        from ..codec import units as _units
+                        reqs.append({"op": "textBetweenSep", "s": info.lean_id, "doc": dj, "from": f, "to": t,
+                                     "sep": _units(sep), "leaf": _units(lt_impl)})
+                        metas.append(("textBetweenSep", dict(replay, separator=sep, leaf_text=lt_impl), _units(txt2)))
                     if st4 != "ok" or txt2 != exp2:
                         ctx.violation("text_between-separators", "text_between with a block separator / leaf text does not give the documented text",
                                       dict(replay, separator=sep, leaf_text=lt_ref if isinstance(lt_ref, str) else "[type name], empty for h*",
